@@ -101,7 +101,7 @@ def run_part(ck, tier):
     for n in ((2,) if tier == "quick" else (1, 2, 3)):
         runs.append(("exhaustive_n%d" % n, dict(zset=[-2, 0, 1] if tier == "quick" else [-2, -1, 0, 1, 2], nset=[n], maxatt=2, maxsteps=1)))
     runs.append(("simulate", dict(zset=[-2, -1, 0, 1, 2], nset=[2], maxatt=3, maxsteps=4,
-                                  simulate="num=%d" % (40 if tier == "quick" else 3000), depth=10, seed_=seed() + 13)))
+                                  simulate="num=%d" % (40 if tier == "quick" else 400), depth=10, seed_=seed() + 13)))
     for label, kw in runs:
         r = L.explore_hmcstep(cfgs, **kw)
         if r.violated:
